@@ -1957,8 +1957,28 @@ def category_major(repo, col, R):
         return out
 
     seq = []   # (loop node or None, categories appended by one statement, in order)
+    def literal_categories(it):
+        """`for types, ... in [([0], ..), ([1, 2], ..), ([3, 4], ..)]:` -- the categories are data; one per iteration, in list order"""
+        if not isinstance(it, (ast.List, ast.Tuple)) or not it.elts:
+            return None
+        out = []
+        for e in it.elts:
+            first = e.elts[0] if isinstance(e, (ast.Tuple, ast.List)) and e.elts else e
+            ks = [c.value for c in ast.walk(first) if isinstance(c, ast.Constant) and isinstance(c.value, int) and not isinstance(c.value, bool)]
+            if not ks or any(k_ not in CAT for k_ in ks):
+                return None
+            out.append({CAT[k_] for k_ in ks})
+        return out
+
     def visit(stmts, loop):
         for st in stmts:
+            lc = literal_categories(st.iter) if isinstance(st, ast.For) else None
+            if lc is not None and loop is None and any(isinstance(x, (ast.For, ast.ListComp)) for b_ in st.body for x in ast.walk(b_)) and \
+                    any(isinstance(x, ast.Call) and isinstance(x.func, ast.Attribute) and x.func.attr in ("append", "concat", "extend") for b_ in st.body for x in ast.walk(b_)):
+                # category loop outside, cells inside: what the body appends per iteration belongs to that iteration's category
+                for k_, cats in enumerate(lc):
+                    seq.append((("lit", id(st), k_), cats, st))
+                continue
             if isinstance(st, (ast.For, ast.While)):
                 visit(st.body, st if loop is None else loop)
                 continue
@@ -1974,6 +1994,8 @@ def category_major(repo, col, R):
                         continue
                     ts = types_of(ex.term(el))
                     cats = {CAT.get(k_) for k_ in ts}
+                    if not cats and any(isinstance(l_, tuple) for l_, _c, _s in seq):
+                        continue   # the blocks were collected by a category loop above; this statement only joins them
                     seq.append((loop, cats, st))
     visit(fi.node.body, None)
     if len(seq) < 3 or any(not c_ or None in c_ for _l, c_, _s in seq):
@@ -1989,7 +2011,7 @@ def category_major(repo, col, R):
         if not order or order[-1] != k_:
             order.append(k_)
         if l_ is not None:
-            by_loop.setdefault(id(l_), []).append((k_, s_))
+            by_loop.setdefault(l_ if isinstance(l_, tuple) else id(l_), []).append((k_, s_))
     for _lid, items in by_loop.items():
         if len({k_ for k_, _s in items}) > 1:
             mixed_loop = mixed_loop or items[0][1]
